@@ -993,7 +993,7 @@ func main() {
 			"level k+1 = {[]e, map[string]e, map[int64]e, struct{A e}, struct{a e; B e}, *struct{A e}, struct{A e; B e}} over level k; top-level structs with 0..3 fields, every field exported or unexported in every position, " +
 			"all 1- and 2-field structs over level 1, 3-field structs (thorough: full level 1; quick: 12-type subset), level 2 alone and next to level-1 / level-2 neighbours in both orders, level 3 (and a thinned level 4 on thorough); " +
 			"values: 4 profiles per type (all zero / nil; one entry; two-three entries with nested zero values and nil pointers; empty non-nil collections) plus alternative floats, extremes of every integer width; each as T and *T; " +
-			"plus fixed named types, nesting to depth 100 through values / pointers / slices / maps, structs with up to 200 fields, and long collections (31..130 elements of 14 element types in a slice, an int-keyed and a string-keyed map, followed by further struct fields); oracle: json.Valid and the independent RFC 8259 recogniser accept the output; decoded with UseNumber it equals the standard encoder's document after bool -> \"true\"/\"false\", null slice -> [], null map -> {}, numbers compared by value; " +
+			"plus fixed named types (incl. strings that look like syntax fragments or are JSON documents themselves, field-less structs between fields), nesting to depth 100 through values / pointers / slices / maps, structs with up to 200 fields, and long collections (31..130 elements of 14 element types in a slice, an int-keyed and a string-keyed map, followed by further struct fields); oracle: json.Valid and the independent RFC 8259 recogniser accept the output; decoded with UseNumber it equals the standard encoder's document after bool -> \"true\"/\"false\", null slice -> [], null map -> {}, numbers compared by value; " +
 			"additionally (modes conc / race, under the controlled scheduler of C10/C11): 2-3 threads dump values of struct types that are new in every execution, all schedules within preemption bound 2 (thorough 3), each result = the result of the call made alone, race detector silent; " +
 			"transitions = dumper calls / scheduling steps; non-trivial = types containing an empty struct, a map, a bool or a leading unexported field",
 		Assumptions: []string{"excluded by the statement: interface fields, pointers to scalars, time.Time, func/chan, strings needing escapes; additionally not generated: arrays, []uint8 (base64 in the standard encoder), embedded fields (flattened by the standard encoder), pointers to pointers, float32 values that are not dyadic, json struct tags",
